@@ -27,7 +27,23 @@ class FakePopen:
 class _Child:
     def __init__(self, script):
         self.stdout = io.BytesIO(script.get("stdout", b""))
-        self.stderr = io.BytesIO(script.get("stderr", b""))
+        hold = script.get("hold_stderr_open")
+        if hold:
+            # a real pipe: the report arrives at once, the write end stays open for `hold` seconds (a process left
+            # behind by the tests has inherited it)
+            import os
+            import threading
+            import time
+            r, w = os.pipe()
+            os.write(w, script.get("stderr", b""))
+
+            def closer():
+                time.sleep(hold)
+                os.close(w)
+            threading.Thread(target=closer, daemon=True).start()
+            self.stderr = os.fdopen(r, "rb")
+        else:
+            self.stderr = io.BytesIO(script.get("stderr", b""))
         self.stdin = io.BytesIO()
         self.returncode = script.get("returncode", 0)
 
